@@ -1,7 +1,7 @@
 """C09 -- raster and text outputs."""
 import ast
+import re
 import struct
-import zlib
 
 from .. import ev, iso, nf, pat, src
 from ..core import rule, ob, explain, Ob
@@ -9,7 +9,7 @@ from ..ev import PyRaise
 from ..interp import Interp, make_callable, FuncVal, callable_env
 from ..src import Unknown
 from .common import C, need, single
-from . import p11, p14
+from . import p11, p14, render
 
 explain('C09', '''Decided (structural): every raster/text writer takes its rows from matrix_iter / matrix_iter_verbose
 (whose (y div s - b, x div s - b) mapping and validation are decided on position-marker matrices, C11.R6) with the same
@@ -26,323 +26,298 @@ MAXVAL/PPM maxval equal the 0..255 scale of the samples. NOT decided: byte-exact
 
 SIZED = ('write_png', 'write_ppm', 'write_pbm', 'write_pam', 'write_xpm', 'write_xbm')
 
+# colours used by the decision tables, with the RGBA value the formats must show for them
+RGBA = {'#000': (0, 0, 0, 255), 'black': (0, 0, 0, 255), '#fff': (255, 255, 255, 255), '#FFFFFF': (255, 255, 255, 255), 'white': (255, 255, 255, 255),
+        'red': (255, 0, 0, 255), 'yellow': (255, 255, 0, 255), 'aliceblue': (240, 248, 255, 255), '#f0f8ff': (240, 248, 255, 255),
+        'antiquewhite': (250, 235, 215, 255), '#eee': (238, 238, 238, 255), 'blue': (0, 0, 255, 255), None: (0, 0, 0, 0)}
 
-@rule('C09', 'R1', 8, 'one row source per writer, fed with the scale/border of the header')
+
+def rgba(c):
+    if isinstance(c, tuple):
+        return tuple(c) if len(c) == 4 else tuple(c) + (255,)
+    return RGBA[c]
+
+
+CONFIGS = [((21, 21), 1, None), ((21, 21), 2, 0), ((11, 11), 3, None), ((11, 11), 2.7, 1), ((13, 13), 1, 3)]
+
+
+def _rows_asked(rs, scale, border, which='matrix_iter'):
+    """The row source was asked once, for the symbol itself, with the (truncated) scale and the border of the header."""
+    if len(rs.calls) != 1:
+        return f'{len(rs.calls)} row sources opened'
+    name, s, b, same = rs.calls[0]
+    if name != which:
+        return f'rows come from {name}'
+    if not same:
+        return 'rows of another matrix'
+    if s != int(scale) or not isinstance(s, int) or isinstance(s, bool):
+        return f'row source asked for scale {s!r} (requested {scale})'
+    bb = render.default_border(SIZE_OF[id(rs)]) if border is None else border
+    if b is not None and b != bb:
+        return f'row source asked for border {b!r}'
+    if b is None and border is not None:
+        return f'row source asked for the default border, requested {border}'
+    return ''
+
+
+SIZE_OF = {}
+
+
+def _run(fx, it, writer, size, scale, border, kw=None, typed=None, has_scale=True):
+    m = render.pattern(*size)
+    kws = dict(kw or {})
+    if has_scale:
+        kws['scale'] = scale
+    kws['border'] = border
+    rec, rs, zs = render.run(fx, it, writer, m, size, kw=kws, typed=typed)
+    SIZE_OF[id(rs)] = size
+    return m, rec, rs, zs
+
+
+@rule('C09', 'R1', 40, 'PBM (P4/P1), XBM, XPM, TXT, terminal: the decoded picture is the symbol at the requested scale and border, dark = the dark token of the format; header = picture size')
 def r1(fx):
-    want = {
-        'write_pbm': 'matrix_iter(matrix, matrix_size, scale, border)', 'write_pam': 'matrix_iter(matrix, matrix_size, scale, border)',
-        'write_xpm': 'matrix_iter(matrix, matrix_size, scale, border)', 'write_xbm': 'matrix_iter(matrix, matrix_size, scale, border)',
-        'write_ppm': 'matrix_iter_verbose(matrix, matrix_size, scale, border)',
-        'write_txt': 'matrix_iter(matrix, matrix_size, scale=1, border=border)',
-        'write_terminal': 'matrix_iter(matrix, matrix_size, scale=1, border=border)',
-        'write_terminal_compact': 'matrix_iter(matrix, matrix_size, scale=1, border=border)',
-    }
-    for w, p in want.items():
-        fn = fx.fn('writers', w)
-        calls = [c for c in src.calls_in(fn) if (src.call_name(c) or '') in ('matrix_iter', 'matrix_iter_verbose')]
-        c = single(calls, f'row source of {w}')
-        b = pat.match(c, p)
-        if b is None:
-            # same callee but other arguments: a slot difference, else shape
-            same = src.call_name(c) == p.split('(')[0]
-            if not same:
-                yield ob(f'{w}: row source', False, c, got=ast.unparse(c), want=p)
-                continue
-        yield ob(f'{w}: row source', b is not None, c, got=ast.unparse(c), want=p)
-        # no reassignment of scale/border between the header computation and the row source other than normalisation
-    png = fx.fn('writers', 'write_png')
-    srcs = sorted(ast.unparse(c) for c in src.calls_in(png, into_nested=False) if src.call_name(c) in ('matrix_iter', 'matrix_iter_verbose', 'iter', 'matrix_to_lines')
-                  and any(isinstance(n, ast.Name) and n.id == 'matrix' for n in ast.walk(c)))
-    yield ob('write_png: rows are the matrix itself (border/scale added by the writer)', srcs == ['iter(matrix)', 'matrix_iter_verbose(matrix, matrix_size, scale=1, border=0)'],
-             png, got=srcs, want=['iter(matrix)', 'matrix_iter_verbose(matrix, matrix_size, scale=1, border=0)'])
+    it = Interp(max_steps=50_000_000)
+    for size, scale, border in CONFIGS:
+        tag = f'size={size[0]} scale={scale} border={border}'
+        for plain in (False, True):
+            fn = fx.fn('writers', 'write_pbm')
+            m, rec, rs, _ = _run(fx, it, 'write_pbm', size, scale, border, kw={'plain': plain})
+            want = render.picture(m, size, scale, border)
+            try:
+                kind, w, h, rows = render.decode_pbm(rec.data())
+                why = ('' if kind == ('P1' if plain else 'P4') else f'magic {kind}') or ('' if (w, h) == (len(want[0]), len(want)) else f'header {w}x{h}, picture {len(want[0])}x{len(want)}') \
+                    or render.first_diff(rows, want) or _rows_asked(rs, scale, border)
+            except render.Bad as ex:
+                why = str(ex)
+            yield ob(f'PBM plain={plain} {tag}: 1 = dark, 8 pixels per byte MSB first, rows padded to bytes', not why, fn, got=why or 'the symbol', want='the symbol')
+        fn = fx.fn('writers', 'write_xbm')
+        m, rec, rs, _ = _run(fx, it, 'write_xbm', size, scale, border, kw={'name': 'sym'})
+        want = render.picture(m, size, scale, border)
+        try:
+            names, w, h, rows = render.decode_xbm(rec.text())
+            why = ('' if names == {'sym'} else f'names {names}') or ('' if (w, h) == (len(want[0]), len(want)) else f'header {w}x{h}, picture {len(want[0])}x{len(want)}') \
+                or render.first_diff(rows, want) or _rows_asked(rs, scale, border)
+        except render.Bad as ex:
+            why = str(ex)
+        yield ob(f'XBM {tag}: 1 = dark, 8 pixels per byte LSB first', not why, fn, got=why or 'the symbol', want='the symbol')
+        fn = fx.fn('writers', 'write_xpm')
+        for dark, light in (('#000', '#fff'), ('red', None), (None, 'yellow')):
+            m, rec, rs, _ = _run(fx, it, 'write_xpm', size, scale, border, kw={'dark': dark, 'light': light, 'name': 'sym'})
+            want = render.picture(m, size, scale, border)
+            try:
+                name, w, h, cpp, colours, rows = render.decode_xpm(rec.text())
+
+                def shown(ch):
+                    c = colours.get(ch)
+                    if c == 'None':
+                        return (0, 0, 0, 0)
+                    mm = re.fullmatch(r'#([0-9a-fA-F]{6})', c or '')
+                    return tuple(int(mm.group(1)[i:i + 2], 16) for i in (0, 2, 4)) + (255,) if mm else c
+                why = ('' if name == 'sym' else f'name {name}') or ('' if (w, h) == (len(want[0]), len(want)) else f'header {w}x{h}, picture {len(want[0])}x{len(want)}') \
+                    or ('' if cpp == 1 and len(colours) == 2 else f'{len(colours)} colours, {cpp} characters per pixel') \
+                    or render.first_diff([[shown(ch) for ch in r_] for r_ in rows], [[rgba(dark) if v else rgba(light) for v in r_] for r_ in want]) \
+                    or _rows_asked(rs, scale, border)
+            except render.Bad as ex:
+                why = str(ex)
+            yield ob(f'XPM dark={dark} light={light} {tag}: every pixel shows the colour of its module', not why, fn, got=why or 'the symbol', want='the symbol')
+    for size, border in (((21, 21), None), ((11, 11), 0), ((13, 13), 3)):
+        tag = f'size={size[0]} border={border}'
+        fn = fx.fn('writers', 'write_txt')
+        for dark, light in (('1', '0'), ('X', '_'), (7, 0)):
+            m, rec, rs, _ = _run(fx, it, 'write_txt', size, 1, border, kw={'dark': dark, 'light': light}, has_scale=False)
+            want = render.picture(m, size, 1, border)
+            txt = rec.text()
+            rows = [list(ln) for ln in txt.split('\n')[:-1]]
+            why = ('' if txt.endswith('\n') else 'no final newline') or render.first_diff(rows, [[str(dark) if v else str(light) for v in r_] for r_ in want]) \
+                or _rows_asked(rs, 1, border)
+            yield ob(f'TXT dark={dark!r} light={light!r} {tag}: one character per module, one line per row', not why, fn, got=why or 'the symbol', want='the symbol')
+        fn = fx.fn('writers', 'write_terminal')
+        m, rec, rs, _ = _run(fx, it, 'write_terminal', size, 1, border, has_scale=False)
+        want = render.picture(m, size, 1, border)
+        try:
+            why = render.first_diff(render.decode_terminal(rec.text()), want) or _rows_asked(rs, 1, border)
+        except render.Bad as ex:
+            why = str(ex)
+        yield ob(f'terminal {tag}: dark = terminal background (ESC[49m), light = inverse video (ESC[7m), two columns per module', not why, fn,
+                 got=why or 'the symbol', want='the symbol')
+        fn = fx.fn('writers', 'write_terminal_compact')
+        m, rec, rs, _ = _run(fx, it, 'write_terminal_compact', size, 1, border, has_scale=False)
+        want = render.picture(m, size, 1, border)
+        if len(want) % 2:
+            want = want + [[1] * len(want[0])]
+        try:
+            why = render.first_diff(render.decode_compact(rec.text()), want) or _rows_asked(rs, 1, border)
+        except render.Bad as ex:
+            why = str(ex)
+        yield ob(f'compact terminal {tag}: two rows per line, light = block half, dark = blank half', not why, fn, got=why or 'the symbol', want='the symbol')
 
 
-@rule('C09', 'R2', 6, 'fractional scale is truncated with int() before the header dimensions are computed')
-def r2(fx):
-    for w in SIZED:
-        fn = fx.fn('writers', w)
-        calls = [c for c in src.calls_in(fn, '_valid_width_height_and_border', into_nested=False)]
-        c = single(calls, f'_valid_width_height_and_border in {w}')
-        b = pat.need(c, '_valid_width_height_and_border(matrix_size, H_s, H_b)', f'size computation of {w}')
-        st = nf.enclosing_stmt(c)
-        okt = isinstance(st, ast.Assign) and isinstance(st.targets[0], ast.Tuple) and len(st.targets[0].elts) == 3 \
-            and pat.match(st.value, '_valid_width_height_and_border(matrix_size, scale, border)') is not None
-        doms = nf.dominators(c, fn, lambda s: pat.match(s, 'scale = int(scale)', mode='stmt') is not None)
-        later = [s for s in fn.body[fn.body.index(st) + 1:] if any(isinstance(n, ast.Name) and n.id == 'scale' and isinstance(n.ctx, ast.Store) for n in ast.walk(s))]
-        yield ob(f'{w}: scale = int(scale) dominates the size computation', bool(doms) and okt and not later, c,
-                 got=f'truncation before: {bool(doms)}; {ast.unparse(st)[:80]}', want='scale = int(scale); width, height, border = _valid_width_height_and_border(matrix_size, scale, border)')
-
-
-@rule('C09', 'R4', 18, 'PNG: signature, chunk = len|type+data|crc, IHDR fields, bit depth table, scanline packing, border and repetition')
-def r4(fx):
-    fn = fx.fn('writers', 'write_png')
-    it = Interp(max_steps=20_000_000)
-    genv = callable_env(fx.forest, 'writers', it, {'pack': struct.pack, 'zlib': _Z(), 'reduce': __import__('functools').reduce})
-    # writes
-    w = single([s for s in fn.body if isinstance(s, ast.With)], 'output block of write_png')
-    writes = sorted((c for c in src.calls_in(w) if src.call_name(c) == 'write'), key=lambda c: (c.lineno, c.col_offset))
-    first = writes[0]
-    sig = ev.ev(first.args[0], {}) if isinstance(first.args[0], ast.Constant) else None
-    yield ob('PNG signature', sig == b'\x89PNG\r\n\x1a\n', first, got=sig, want=b'\x89PNG\r\n\x1a\n')
-    others = [c for c in writes[1:] if not (isinstance(c.args[0], ast.Call) and src.call_name(c.args[0]) == 'chunk')]
-    yield ob('every write after the signature is a chunk', not others and len(writes) >= 4, w, got=[ast.unparse(o)[:50] for o in others], want=[])
-    kinds = [ev.ev(c.args[0].args[0], {}) for c in writes[1:] if isinstance(c.args[0], ast.Call)]
-    yield ob('chunk order IHDR [pHYs] [PLTE [tRNS]] [tRNS] IDAT IEND', kinds == [b'IHDR', b'pHYs', b'PLTE', b'tRNS', b'tRNS', b'tRNS', b'IDAT', b'IEND'], w,
-             got=kinds, want='IHDR pHYs PLTE tRNS tRNS tRNS IDAT IEND')
-    want_guards = {0: 'True', 1: 'True', 2: 'dpi', 3: 'not (is_greyscale)', 4: 'not (is_greyscale) and len(palette[0]) > 3',
-                   5: 'not (is_greyscale) and not (len(palette[0]) > 3) and is_transparent', 6: 'not (not is_greyscale) and is_transparent',
-                   7: 'True', 8: 'True'}
-    got_guards = {i: nf.guard_text([g for g in nf.guards_of(c, fn)]).replace('not (not is_greyscale)', 'not (not is_greyscale)') for i, c in enumerate(writes)}
-    norm = lambda t: t.replace('not is_greyscale', 'not (is_greyscale)') if t != 'True' else t   # noqa: E731
-    okg = len(writes) == 9 and all(norm(got_guards[i]).replace('not (not (is_greyscale))', 'not (not is_greyscale)') == want_guards[i] for i in range(9))
-    yield ob('each chunk is written under its own condition only (pHYs: dpi; PLTE: palette image; tRNS: alpha / transparency)', okg, w,
-             got=got_guards, want=want_guards)
-    ch = FuncVal(fx.fn('writers', 'write_png.chunk'), genv, it)
-    bad = []
-    for name, data in ((b'IHDR', b'\x00\x01abc'), (b'IEND', b''), (b'IDAT', bytes(range(40)))):
-        want = struct.pack('>I', len(data)) + name + data + struct.pack('>I', zlib.crc32(name + data) & 0xffffffff)
-        got = ch(name, data)
-        if got != want:
-            bad.append((name, got, want))
-    yield ob('chunk(name, data) = length | name+data | CRC32(name+data)', not bad, fx.fn('writers', 'write_png.chunk'), got=bad[:1], want=[])
-    ih = [c for c in writes if isinstance(c.args[0], ast.Call) and ev.ev(c.args[0].args[0], {}) == b'IHDR'][0]
-    yield ob('IHDR = (width, height, bit depth, colour type, 0, 0, 0)', pat.match(ih.args[0].args[1], "pack(b'>2I5B', width, height, png_bit_depth, png_color_type, 0, 0, 0)") is not None,
-             ih, got=ast.unparse(ih.args[0].args[1]), want="pack(b'>2I5B', width, height, png_bit_depth, png_color_type, 0, 0, 0)")
-    idat = [c for c in writes if isinstance(c.args[0], ast.Call) and ev.ev(c.args[0].args[0], {}) == b'IDAT'][0]
-    yield ob('IDAT = zlib.compress(scanlines, compresslevel)', pat.match(idat.args[0].args[1], 'zlib.compress(idat, compresslevel)') is not None, idat,
-             got=ast.unparse(idat.args[0].args[1]), want='zlib.compress(idat, compresslevel)')
-    # bit depth decision
-    init = single([s for s in fn.body if isinstance(s, ast.Assign) and ast.unparse(s.targets[0]) == 'png_bit_depth'], 'initial bit depth')
-    dec = single([s for s in fn.body if isinstance(s, ast.If) and 'png_bit_depth' in ast.unparse(s) and ast.unparse(s.test) == 'not is_greyscale'], 'bit depth decision')
-    inner = [s for s in dec.body if isinstance(s, ast.If) and 'png_bit_depth' in ast.unparse(s)]
-    bad = []
-    for n in range(1, 17):
-        for grey in ((True, False) if n == 2 else (False,)):
-            e = dict(genv, number_of_colors=n, is_greyscale=grey)
-            it.block([init] + ([] if grey else inner), e)
-            d = e['png_bit_depth']
-            if d not in (1, 2, 4, 8) or n > 2 ** d:
-                bad.append((n, grey, d))
-    yield ob('bit depth holds every palette index: colours <= 2^depth for 1..16 colours', not bad, dec, got=bad, want=[])
-    ct = single([s for s in fn.body if isinstance(s, ast.Assign) and ast.unparse(s.targets[0]) == 'png_color_type'], 'colour type')
-    yield ob('colour type 0 (greyscale) / 3 (palette)', nf.same(ct.value, '0 if is_greyscale else 3'), ct, got=ast.unparse(ct.value), want='0 if is_greyscale else 3')
-    # scanline
-    sl_fn = fx.fn('writers', 'write_png.scanline')
-    bad = []
-    for d in (1, 2, 4):
-        g2 = dict(genv, png_bit_depth=d)
-        sl = FuncVal(sl_fn, g2, it)
-        per = 8 // d
-        for row in ([1], [1, 0], [0, 1, 1], list(range(2 ** d)) * 3, [(2 ** d) - 1] * per, [1] * (per + 1), [0] * 9, [1, 0] * 8):
-            row = [x % (2 ** d) for x in row]
-            want = bytearray([0])
-            for i in range(0, len(row), per):
-                grp = row[i:i + per] + [0] * (per - len(row[i:i + per]))
-                v = 0
-                for x in grp:
-                    v = (v << d) | x
-                want.append(v)
-            got = sl(list(row))
-            if bytes(got) != bytes(want):
-                bad.append((d, row, bytes(got), bytes(want)))
-        got = sl([0] * per, filter_type=b'\x02')
-        if bytes(got) != b'\x02\x00':
-            bad.append((d, 'filter', bytes(got)))
-    yield ob('scanline: filter byte + 8/depth samples per byte, MSB first, zero fill (depth 1, 2, 4)', not bad, sl_fn, got=bad[:2], want=[])
-    # borders and repetition
-    stm = {ast.unparse(s.targets[0]): s for s in src.statements(fn.body) if isinstance(s, ast.Assign) and len(s.targets) == 1}
-    checks = [
-        ('horizontal_border', 'scanline(repeat(qz_value, width)) * border * scale'),
-        ('vertical_border', '[qz_value] * border * scale'),
-        ('same_as_above', "scanline(repeat(0, width), filter_type=b'\\x02') * (scale - 1)"),
-        ('qz_value', 'color_index[qz_idx]'),
-    ]
-    for name, want in checks:
-        cands = [s for s in src.statements(fn.body) if isinstance(s, ast.Assign) and ast.unparse(s.targets[0]) == name and not isinstance(s.value, ast.Constant)]
-        s = single(cands, f'{name} in write_png')
-        yield ob(f'write_png: {name}', nf.same(s.value, want), s, got=ast.unparse(s.value), want=want)
-    rep = [s for s in src.statements(fn.body) if isinstance(s, ast.Assign) and ast.unparse(s.targets[0]) == 'miter' and 'repeat(b, scale)' in ast.unparse(s.value)]
-    s = single(rep, 'horizontal repetition in write_png')
-    g = nf.guard_text(nf.guards_of(s, fn))
-    yield ob('each sample repeated `scale` times when scale > 1', nf.norm(s.value) == nf.norm(ast.parse('(chain(*(repeat(b, scale) for b in row)) for row in miter)', mode='eval').body)
-             and nf.guard_is(nf.guards_of(s, fn), 'scale > 1'), s, got=f'{ast.unparse(s.value)} if {g}', want='(chain(*(repeat(b, scale) for b in row)) for row in miter) if scale > 1')
-    loop = single([s for s in fn.body if isinstance(s, ast.For) and ast.unparse(s.iter) == 'miter'], 'row loop of write_png')
-    body = [ast.unparse(x) for x in loop.body]
-    yield ob('each row: scanline(border + row + border) followed by the repeated-row filter lines', body == ['idat += scanline(chain(vertical_border, row, vertical_border))', 'idat += same_as_above'],
-             loop, got=body, want=['idat += scanline(chain(vertical_border, row, vertical_border))', 'idat += same_as_above'])
-    pre = [ast.unparse(s) for s in fn.body if isinstance(s, (ast.Assign, ast.AugAssign)) and ast.unparse(s.targets[0] if isinstance(s, ast.Assign) else s.target) == 'idat']
-    yield ob('top and bottom border rows', pre == ['idat = bytearray(horizontal_border)', 'idat += horizontal_border'], fn, got=pre,
-             want=['idat = bytearray(horizontal_border)', 'idat += horizontal_border'])
-    ci = [s for s in src.statements(fn.body) if isinstance(s, ast.Expr) and 'color_index.update' in ast.unparse(s)]
-    s = single(ci, 'two-colour index map in write_png')
-    yield ob('two-colour path: 0 -> quiet-zone colour index, 1 -> dark colour index', nf.norm(s.value) == nf.norm(ast.parse('color_index.update({0: color_index[qz_idx], 1: palette.index(clr_map[dark_idx])})', mode='eval').body),
-             s, got=ast.unparse(s.value), want='color_index.update({0: color_index[qz_idx], 1: palette.index(clr_map[dark_idx])})')
-
-
-class _Z:
-    _model = ('crc32', 'compress')
-    crc32 = staticmethod(zlib.crc32)
-    compress = staticmethod(zlib.compress)
-
-
-@rule('C09', 'R5', 6, 'bit packing: PBM 8 pixels per byte MSB first (all 256 groups + partial), XBM LSB first; one token per cell in P1/TXT/XPM')
-def r5(fx):
-    it = Interp(max_steps=20_000_000)
-    red = __import__('functools').reduce
-    genv = callable_env(fx.forest, 'writers', it, {'reduce': red})
-    pr = FuncVal(fx.fn('writers', 'write_pbm.pack_row'), genv, it)
-    bad = []
-    for v in range(256):
-        bits = [(v >> (7 - k)) & 1 for k in range(8)]
-        if list(pr(bits)) != [v]:
-            bad.append((v, list(pr(bits))))
-    for bits, want in (([1], [0x80]), ([1, 1, 1], [0xE0]), ([0] * 8 + [1], [0, 0x80]), ([1] * 15, [0xFF, 0xFE])):
-        if list(pr(bits)) != want:
-            bad.append((bits, list(pr(bits))))
-    yield ob('PBM pack_row: MSB first, zero fill', not bad, fx.fn('writers', 'write_pbm.pack_row'), got=bad[:3], want=[])
-    pbm = fx.fn('writers', 'write_pbm')
-    hdr = [c for c in src.calls_in(pbm) if src.call_name(c) == 'write'][0]
-    htxt = ast.unparse(hdr.args[0])
-    yield ob('PBM header: magic, width height from the validated size', '("P4" if not plain else "P1")' in htxt.replace("'", '"') and '{width} {height}' in htxt, hdr,
-             got=htxt[:120], want='P4|P1, {width} {height}')
-    plain = [ast.unparse(s) for s in src.statements(pbm.body) if isinstance(s, ast.Expr) and 'str(i)' in ast.unparse(s)]
-    yield ob('P1: one digit per pixel, newline per row', plain == ["write(b''.join((str(i).encode('ascii') for i in row)))"], pbm, got=plain,
-             want="write(b''.join(str(i).encode('ascii') for i in row))")
-    # XBM
-    xbm = fx.fn('writers', 'write_xbm')
-    comp = [n for n in ast.walk(xbm) if isinstance(n, ast.ListComp) and 'reduce' in ast.unparse(n)]
-    lc = single(comp, 'XBM byte comprehension')
-    bad = []
-    for row in ([1, 0, 0, 0, 0, 0, 0, 0], [0, 0, 0, 0, 0, 0, 0, 1], [1, 1, 0, 0, 0, 0, 0, 0, 1], [1] * 3):
-        import itertools
-        groups = list(itertools.zip_longest(*[iter(row)] * 8, fillvalue=0))
-        got = ev.ev(lc, dict(genv, iter_=groups))
-        want = []
-        for g in groups:
-            v = 0
-            for k, bit in enumerate(g):
-                v |= bit << k
-            want.append(f'0x{v:02x}')
-        if got != want:
-            bad.append((row, got, want))
-    yield ob('XBM: first pixel in the least significant bit', not bad, lc, got=bad[:2], want=[])
-    hx = [c for c in src.calls_in(xbm) if src.call_name(c) == 'write'][0]
-    htxt = ast.unparse(hx.args[0])
-    yield ob('XBM header: _width/_height from the validated size', '_width {width}' in htxt and '_height {height}' in htxt, hx, got=htxt[:100], want='#define <name>_width {width} ...')
-    xpm = fx.fn('writers', 'write_xpm')
-    hp = [c for c in src.calls_in(xpm) if src.call_name(c) == 'write'][0]
-    htxt = ast.unparse(hp.args[0])
-    yield ob('XPM header: "{width} {height} 2 1" and the two colour lines', '"{width} {height} 2 1"' in htxt and '"  c {bg_color}"' in htxt and '"X c {stroke_color}"' in htxt,
-             hp, got=htxt[:160], want='"{width} {height} 2 1", "  c {bg_color}", "X c {stroke_color}"')
-
-
-def _tok(expr, var, env=None):
-    return [ev.ev(expr, dict(env or {}, **{var: b})) for b in (0, 1)]
-
-
-@rule('C09', 'R6', 7, 'polarity: value 1 reaches the dark token / colour of each format')
-def r6(fx):
-    xpm = fx.fn('writers', 'write_xpm')
-    tok = [n for n in ast.walk(xpm) if isinstance(n, ast.IfExp) and 'X' in ast.unparse(n) and isinstance(n.body, ast.Constant) and n.body.value in (' ', 'X')]
-    t = single(tok, 'XPM pixel token')
-    tv = [n.id for n in ast.walk(t.test) if isinstance(n, ast.Name)]
-    need(len(set(tv)) == 1, 'XPM pixel token: one variable expected')
-    yield ob('XPM: 0 -> " " (light colour line), 1 -> "X" (dark colour line)', _tok(t, tv[0]) == [' ', 'X'], t, got=_tok(t, tv[0]), want=[' ', 'X'])
-    hdr_parts = [v for n in ast.walk(xpm) if isinstance(n, ast.JoinedStr) for v in n.values]
-    def _after(prefix):
-        for i, v in enumerate(hdr_parts):
-            if isinstance(v, ast.Constant) and isinstance(v.value, str) and v.value.endswith(prefix) and i + 1 < len(hdr_parts) \
-                    and isinstance(hdr_parts[i + 1], ast.FormattedValue):
-                return hdr_parts[i + 1].value
-        return None
-    xd, xl = _after('"X c '), _after('"  c ')
-    need(xd is not None and xl is not None, 'XPM colour lines not found')
-    yield ob('XPM: X = dark, blank = light', nf.same_inlined(xpm, xd, "color_to_rgb_hex(dark) if dark is not None else 'None'")
-             and nf.same_inlined(xpm, xl, "color_to_rgb_hex(light) if light is not None else 'None'"), xpm,
-             got=(ast.unparse(nf.inline(xpm, xd)), ast.unparse(nf.inline(xpm, xl))), want='X <- dark, blank <- light')
-    txt = fx.fn('writers', 'write_txt')
-    j = [n for n in ast.walk(txt) if isinstance(n, ast.GeneratorExp) and pat.match(n, '(H_c[H_v] for H_v in H_r)') is not None]
-    need(len(j) == 1, 'TXT: per-cell character lookup not found')
-    cexpr = pat.match(j[0], '(H_c[H_v] for H_v in H_r)')['c']
-    yield ob('TXT: (light, dark)[bit], one character per cell, newline per row', nf.same_inlined(txt, cexpr, '(str(light), str(dark))'), j[0],
-             got=ast.unparse(nf.inline(txt, cexpr)), want='(str(light), str(dark))')
-    pam = fx.fn('writers', 'write_pam')
-    inv = fx.fn('writers', 'write_pam.invert_row_bits')
-    r = single([s for s in inv.body if isinstance(s, ast.Return)], 'return of invert_row_bits')
-    got = list(ev.ev(r.value, {'row': [0, 1, 1, 0]}))
-    yield ob('PAM BLACKANDWHITE: 1 (dark) -> sample 0 (black)', got == [1, 0, 0, 1], r, got=got, want=[1, 0, 0, 1])
-    cols = [s for s in src.statements(pam.body) if isinstance(s, ast.Assign) and isinstance(s.value, ast.Tuple) and len(s.value.elts) == 2
-            and isinstance(s.targets[0], ast.Name) and (pat.match(s.value, '(pack(H_f, *H_a), pack(H_f, *H_b))') is not None
-                                                        or all(isinstance(e, ast.Constant) and isinstance(e.value, bytes) for e in s.value.elts))]
-    need(len(cols) == 2, 'write_pam: the two colour tuples')
-    okc = True
-    detail = []
-    sc = [s for s in pam.body if isinstance(s, ast.Assign) and pat.match(s.value, '_color_to_rgb_or_rgba(dark, alpha_float=False)') is not None]
-    need(len(sc) == 1, 'write_pam: stroke colour')
-    stroke_name = ast.unparse(sc[0].targets[0])
-    for s_ in cols:
-        b_ = pat.match(s_.value, '(pack(H_f, *H_a), pack(H_f, *H_b))')
-        if b_ is None:
-            okc &= ev.ev(s_.value, {}) == (b'\x01\x00', b'\x00\x01')
-            detail.append(ast.unparse(s_.value))
-        else:
-            okc &= ast.unparse(b_['b']) == stroke_name and ast.unparse(b_['a']) != stroke_name
-            detail.append(f'(light: {ast.unparse(b_["a"])}, dark: {ast.unparse(b_["b"])})')
-    yield ob('PAM colour tuples are (light, dark) indexed by the bit', okc, pam, got=detail, want="(b'\\x01\\x00', b'\\x00\\x01'); (pack(bg), pack(stroke))")
-    rc = fx.fn('writers', 'write_pam.row_to_color_values')
-    rr = single([s for s in rc.body if isinstance(s, ast.Return)], 'return of row_to_color_values')
-    yield ob('PAM colour rows: colours[bit] per pixel', pat.match(rr.value, "b''.join(colours[H_v] for H_v in row)") is not None, rr, got=ast.unparse(rr.value),
-             want="b''.join(colours[b] for b in row)")
-    term = fx.fn('writers', 'write_terminal')
-    tc = single([s for s in src.statements(term.body) if isinstance(s, ast.Assign) and ast.unparse(s.targets[0]) == 'colours'], 'terminal colours')
-    comp = fx.fn('writers', 'write_terminal_compact')
-    bl = single([s for s in comp.body if isinstance(s, ast.Assign) and ast.unparse(s.targets[0]) == 'blocks'], 'compact blocks')
-    blocks = ev.ev(bl.value, {})
-    okc = blocks == {(1, 1): ' ', (0, 1): '▀', (1, 0): '▄', (0, 0): '█'}
-    okt = ev.ev(tc.value, {}) == ['\033[7m', '\033[49m']
-    yield ob('terminal writers: dark = terminal background, light = inverse / full block (both writers agree)', okc and okt, term,
-             got=(ev.ev(tc.value, {}), blocks), want='[ESC[7m, ESC[49m]; {(1,1): " ", (0,0): full block, ...}')
-
-
-@rule('C09', 'R8', 14, 'PAM header decision over all (dark, light) colour classes; MAXVAL / PPM maxval = scale of the samples')
+@rule('C09', 'R8', 30, 'PAM: TUPLTYPE / DEPTH / MAXVAL decided by the colour classes, samples show the module colour on the MAXVAL scale; PPM: maxval 255, RGB of the module type')
 def r8(fx):
+    it = Interp(max_steps=50_000_000)
     fn = fx.fn('writers', 'write_pam')
-    it = Interp(max_steps=20_000_000)
-    genv = callable_env(fx.forest, 'writers', it, {'pack': struct.pack, 'partial': __import__('functools').partial})
-    w = [i for i, s in enumerate(fn.body) if isinstance(s, ast.With)]
-    need(len(w) == 1, 'write_pam: output block')
-    pre = fn.body[:w[0]]
     classes = {'black': ('#000', 'bw'), 'black2': ('black', 'bw'), 'white': ('#FFFFFF', 'bw'), 'red': ('red', 'c'), 'navy': ((0, 0, 139), 'c'),
                'yellow': ('yellow', 'c'), 'none': (None, 'n')}
+    size, scale, border = (11, 11), 2.7, 1
     for dk in ('black', 'black2', 'white', 'red', 'navy'):
         for lk in ('none', 'white', 'black', 'yellow', 'red'):
             dark, dcls = classes[dk]
             light, lcls = classes[lk]
-            e = dict(genv, matrix=[[0]], matrix_size=(21, 21), out='<out>', scale=1, border=None, dark=dark, light=light)
-            e['matrix_iter'] = lambda *a, **k: []
-            try:
-                it.block(pre, e)
-                got = (e['tuple_type'], e['depth'], e['maxval'])
-            except PyRaise as ex:
-                got = f'raises {ex.name}'
             if lcls == 'n':
-                want = ('GRAYSCALE_ALPHA', 2, 1) if dcls == 'bw' else ('RGB_ALPHA', 4, 255)
+                want_h = ('GRAYSCALE_ALPHA', 2, 1) if dcls == 'bw' else ('RGB_ALPHA', 4, 255)
             elif dcls == 'bw' and lcls == 'bw':
-                want = ('BLACKANDWHITE', 1, 1)
+                want_h = ('BLACKANDWHITE', 1, 1)
             else:
-                want = ('RGB', 3, 255)
-            yield ob(f'PAM dark={dark!r} light={light!r}', got == want, fn, got=got, want=want)
-    ppm = fx.fn('writers', 'write_ppm')
-    hdr = [c for c in src.calls_in(ppm) if src.call_name(c) == 'write'][0]
-    htxt = ast.unparse(hdr.args[0])
-    yield ob('PPM header: P6, {width} {height}, maxval 255', 'P6 #' in htxt and '{width} {height} 255' in htxt, hdr, got=htxt[:100], want='P6 ... {width} {height} 255')
-    conv = [s for s in src.statements(ppm.body) if isinstance(s, ast.Assign) and 'colormap[mt]' in ast.unparse(s.targets[0])]
-    c = single(conv, 'PPM colour conversion')
-    yield ob('PPM samples come from _color_to_rgb (0..255)', pat.match(c.value, '_color_to_rgb(clr)') is not None, c, got=ast.unparse(c.value), want='_color_to_rgb(clr)')
-    hp = [c for c in src.calls_in(fn) if src.call_name(c) == 'write'][0]
-    htxt = ast.unparse(hp.args[0])
-    yield ob('PAM header fields from the computed values', all(x in htxt for x in ('WIDTH {width}', 'HEIGHT {height}', 'DEPTH {depth}', 'MAXVAL {maxval}', 'TUPLTYPE {tuple_type}', 'ENDHDR')),
-             hp, got=htxt[:200], want='WIDTH/HEIGHT/DEPTH/MAXVAL/TUPLTYPE/ENDHDR')
+                want_h = ('RGB', 3, 255)
+            try:
+                m, rec, rs, _ = _run(fx, it, 'write_pam', size, scale, border, kw={'dark': dark, 'light': light})
+                want = render.picture(m, size, scale, border)
+                hdr, w, h, d, mx, rows = render.decode_pam(rec.data())
+                got_h = (hdr.get('TUPLTYPE'), d, mx)
+
+                def shown(t):
+                    # sample tuple -> RGBA on the 0..255 scale
+                    t = tuple(v * 255 // mx for v in t)
+                    return {1: lambda: (t[0],) * 3 + (255,), 2: lambda: (t[0],) * 3 + (t[1],), 3: lambda: t + (255,), 4: lambda: t}[d]()
+
+                def exp(v):
+                    c = rgba(dark) if v else rgba(light)
+                    return c
+                why = ('' if got_h == want_h else f'header {got_h}, the colours need {want_h}') or \
+                    ('' if (w, h) == (len(want[0]), len(want)) else f'header {w}x{h}, picture {len(want[0])}x{len(want)}')
+                if not why:
+                    gotp = [[shown(t) for t in r_] for r_ in rows]
+                    wantp = [[exp(v) for v in r_] for r_ in want]
+                    # a transparent sample may carry any colour
+                    gotp = [[(0, 0, 0, 0) if p[3] == 0 else p for p in r_] for r_ in gotp]
+                    why = render.first_diff(gotp, wantp) or _rows_asked(rs, scale, border)
+            except PyRaise as ex:
+                why = f'raises {ex.name}'
+            except render.Bad as ex:
+                why = str(ex)
+            yield ob(f'PAM dark={dark!r} light={light!r}', not why, fn, got=why or f'{want_h}, the symbol', want=f'{want_h}, the symbol')
+    fn = fx.fn('writers', 'write_ppm')
+    for kw in ({}, {'dark': 'red', 'light': 'yellow'}, {'finder_dark': 'blue', 'data_light': '#eee', 'quiet_zone': 'aliceblue'}, {'dark': (0, 0, 139), 'timing_dark': (10, 20, 30)}):
+        for size, scale, border in (((21, 21), 1, None), ((11, 11), 2.7, 1)):
+            try:
+                m, rec, rs, _ = _run(fx, it, 'write_ppm', size, scale, border, kw=kw, typed=_typed(fx, size, kw))
+                cm = _colormap(fx, it, size, kw, 'write_ppm')
+                ty = _typed(fx, size, kw)
+                want = render.picture(m, size, scale, border, value=lambda r, c, v: rgba(cm[ty(r, c, v)])[:3], outside=rgba(cm[C(fx, 'TYPE_QUIET_ZONE')])[:3])
+                w, h, mx, rows = render.decode_ppm(rec.data())
+                why = ('' if mx == 255 else f'maxval {mx}') or ('' if (w, h) == (len(want[0]), len(want)) else f'header {w}x{h}, picture {len(want[0])}x{len(want)}') \
+                    or render.first_diff(rows, want) or _rows_asked(rs, scale, border, 'matrix_iter_verbose')
+            except PyRaise as ex:
+                why = f'raises {ex.name}'
+            except render.Bad as ex:
+                why = str(ex)
+            yield ob(f'PPM {kw} size={size[0]} scale={scale} border={border}', not why, fn, got=why or 'the symbol in its colours', want='the symbol in its colours')
+    m, rec, rs, _ = (None, None, None, None)
+    try:
+        _run(fx, it, 'write_ppm', (21, 21), 1, None, kw={'light': None}, typed=_typed(fx, (21, 21), {}))
+        got = 'accepted'
+    except PyRaise as ex:
+        got = f'raises {ex.name}'
+    yield ob('PPM refuses a transparent colour (the format has none)', got == 'raises ValueError', fn, got=got, want='raises ValueError')
+
+
+def _colormap(fx, it, size, kw, writer):
+    genv = callable_env(fx.forest, 'writers', it)
+    base = dict(render.deco_defaults(fx, writer))
+    base.update({k: v for k, v in kw.items() if k in render.COLOUR_KEYS})
+    return dict(genv['_make_colormap'](size[0], size[1], **base))
+
+
+_TYPED_CACHE = {}
+
+
+def _typed(fx, size, kw):
+    """(r, c, bit) -> a module type of the right polarity that the colour map of this size has; every type is used."""
+    key = (fx.forest.digest if hasattr(fx.forest, 'digest') else 0, size)
+    if key not in _TYPED_CACHE:
+        it = Interp()
+        cm = _colormap(fx, it, size, {}, 'write_png')
+        qz = C(fx, 'TYPE_QUIET_ZONE')
+        darks = sorted(k for k in cm if k >> 8)
+        lights = sorted(k for k in cm if not k >> 8 and k != qz)
+        _TYPED_CACHE[key] = (darks, lights)
+    darks, lights = _TYPED_CACHE[key]
+    return lambda r, c, v: (darks[(r * 3 + c) % len(darks)] if v else lights[(r * 3 + c) % len(lights)])
+
+
+@rule('C09', 'R4', 19, 'PNG: signature, chunk = length | type+data | CRC, IHDR = picture size / depth / colour type, chunk order, scanlines at the bit depth; the decoded picture is the symbol at the requested scale and border')
+def r4(fx):
+    it = Interp(max_steps=80_000_000)
+    fn = fx.fn('writers', 'write_png')
+    for size, scale, border in CONFIGS + [((21, 21), 3.9, 2)]:
+        for kw in ({}, {'dark': 'red', 'light': None}, {'finder_dark': 'blue', 'data_light': '#eee', 'timing_dark': (10, 20, 30), 'format_light': 'yellow', 'quiet_zone': 'aliceblue'}):
+            tag = f'{kw} size={size[0]} scale={scale} border={border}'
+            yield _png_ob(fx, it, fn, tag, size, scale, border, kw)
+    m, rec, rs, zs = _run(fx, it, 'write_png', (11, 11), 1, 0, kw={'dpi': 300, 'compresslevel': 3}, typed=_typed(fx, (11, 11), {}))
+    try:
+        png = render.decode_png(rec.data())
+        phys = [c for c in png['chunks'] if c[0] == b'pHYs']
+        ok = len(phys) == 1 and struct.unpack('>LLB', phys[0][1]) == (11811, 11811, 1) and png['order'].index(b'pHYs') < png['order'].index(b'IDAT') and zs.levels == [3]
+        got = (phys[0][1].hex() if phys else None, zs.levels)
+    except render.Bad as ex:
+        ok, got = False, str(ex)
+    yield ob('PNG dpi=300 -> pHYs 11811 pixels per metre before IDAT; compresslevel reaches zlib', ok, fn, got=got, want='pHYs (11811, 11811, 1), level 3')
+
+
+def _png_ob(fx, it, fn, tag, size, scale, border, kw):
+    ty = _typed(fx, size, kw)
+    try:
+        m, rec, rs, zs = _run(fx, it, 'write_png', size, scale, border, kw=kw, typed=ty)
+        cm = _colormap(fx, it, size, kw, 'write_png')
+        qz = C(fx, 'TYPE_QUIET_ZONE')
+        want = render.picture(m, size, scale, border, value=lambda r, c, v: rgba(cm[ty(r, c, v)]), outside=rgba(cm[qz]))
+        png = render.decode_png(rec.data())
+        probs = []
+        if not png['signature']:
+            probs.append('signature')
+        bad = [c[0] for c in png['chunks'] if not c[2]]
+        if bad:
+            probs.append(f'CRC of {bad}')
+        order = png['order']
+        if order[0] != b'IHDR' or order[-1] != b'IEND' or order.count(b'IDAT') != 1 or \
+                (b'PLTE' in order and not order.index(b'PLTE') < order.index(b'IDAT')) or \
+                (b'tRNS' in order and not (order.index(b'tRNS') < order.index(b'IDAT') and (b'PLTE' not in order or order.index(b'PLTE') < order.index(b'tRNS')))):
+            probs.append(f'chunk order {order}')
+        if png['tail'] != (0, 0, 0):
+            probs.append(f'IHDR compression/filter/interlace {png["tail"]}')
+        if (png['width'], png['height']) != (len(want[0]), len(want)):
+            probs.append(f'IHDR {png["width"]}x{png["height"]}, picture {len(want[0])}x{len(want)}')
+        if (png['ctype'] == 3) != (b'PLTE' in order):
+            probs.append('PLTE presence does not match the colour type')
+        if not probs:
+            gotp = [[(0, 0, 0, 0) if p[3] == 0 else p for p in r_] for r_ in png['pixels']]
+            d = render.first_diff(gotp, want)
+            if d:
+                probs.append(d)
+        if not probs:
+            verbose = [c for c in rs.calls if c[0] == 'matrix_iter_verbose']
+            if any(c[1] != 1 or c[2] != 0 or not c[3] for c in verbose) or len(rs.calls) > 1:
+                probs.append(f'row source {rs.calls}')
+        why = '; '.join(probs[:3])
+    except PyRaise as ex:
+        why = f'raises {ex.name}'
+    except render.Bad as ex:
+        why = str(ex)
+    return ob(f'PNG {tag}', not why, fn, got=why or 'well-formed, the symbol in its colours', want='well-formed, the symbol in its colours')
+
+
+@rule('C09', 'R9', 90, 'PNG colours: every module is painted with exactly its configured colour (palette, alpha, transparency) for every colour class combination')
+def r9(fx):
+    fn = fx.fn('writers', 'write_png')
+    it = Interp(max_steps=80_000_000)
+    darks = ['#000', 'aliceblue', '#f0f8ff', (240, 248, 255), (255, 0, 0, 128), 'antiquewhite', '#fff']
+    lights = [None, '#fff', 'aliceblue', (0, 0, 255, 64), '#000']
+    extras = [{}, {'finder_dark': (255, 0, 0, 128)}, {'finder_dark': 'red', 'data_light': None}, {'timing_dark': 'aliceblue'}]
+    for d in darks:
+        for l in lights:
+            for ex in extras:
+                kw = dict(ex, dark=d, light=l)
+                yield _png_ob(fx, it, fn, f'dark={d!r} light={l!r} {ex}', (11, 11), 1, 1, kw)
 
 
 @rule('C09', 'R3', 12, 'iterator mapping and validation (C11.R6), validation before output (C14.R8)')
@@ -355,67 +330,3 @@ def r3(fx):
             yield o
 
 
-def _png_prefix(fx, it, dark, light, **per_type):
-    """Interpret the part of write_png before the output block for one colour configuration (no matrix involved)."""
-    fn = fx.fn('writers', 'write_png')
-    genv = callable_env(fx.forest, 'writers', it, {'pack': struct.pack, 'zlib': _Z(), 'reduce': __import__('functools').reduce})
-    mk = genv['_make_colormap']
-    cm = mk(21, 21, dark=dark, light=light, **per_type)
-    w = [i for i, s in enumerate(fn.body) if isinstance(s, ast.With)]
-    need(len(w) == 1, 'write_png: output block')
-    e = dict(genv, matrix=[[0] * 21 for _ in range(21)], matrix_size=(21, 21), out='<out>', colormap=cm, scale=1, border=0, compresslevel=9, dpi=None)
-    e['matrix_iter_verbose'] = lambda *a, **k: []
-    it.block(fn.body[:w[0]], e)
-    return cm, e
-
-
-@rule('C09', 'R9', 30, 'PNG palette: entries pairwise distinct, every module type indexes its own colour, alpha kept, transparent entry really transparent')
-def r9(fx):
-    fn = fx.fn('writers', 'write_png')
-    it = Interp(max_steps=20_000_000)
-    qz, dk = C(fx, 'TYPE_QUIET_ZONE'), C(fx, 'TYPE_FINDER_PATTERN_DARK')
-    darks = ['#000', 'aliceblue', '#f0f8ff', (240, 248, 255), (255, 0, 0, 128), 'antiquewhite']
-    lights = [None, '#fff', 'aliceblue', (0, 0, 255, 64)]
-    extras = [{}, {'finder_dark': (255, 0, 0, 128)}, {'finder_dark': 'red', 'data_light': None}, {'timing_dark': 'aliceblue'}]
-    for d in darks:
-        for l in lights:
-            for ex in extras:
-                if d is None and l is None:
-                    continue
-                key = f'PNG dark={d!r} light={l!r} {ex}'
-                try:
-                    cm, e = _png_prefix(fx, it, d, l, **ex)
-                except PyRaise as exn:
-                    yield ob(key, False, fn, got=f'raises {exn.name}', want='a palette')
-                    continue
-                pal, clr_map, ci = e['palette'], e['clr_map'], e['color_index']
-                grey, tidx = e['is_greyscale'], e['png_trans_idx']
-                probs = []
-                if len({tuple(c) for c in pal}) != len(pal):
-                    probs.append(f'palette entries collide: {pal}')
-                lens = [len(c) for c in pal]
-                if not grey and lens != sorted(lens, reverse=True):
-                    probs.append(f'RGBA entries are not first: {pal}')
-                # what each type will be painted with
-                multi = set(ci) >= set(cm)
-                for t, colour in cm.items():
-                    if not multi and t not in (qz, dk):
-                        continue
-                    idx = ci[t] if multi else (ci[0] if t == qz else ci[1])
-                    entry = pal[idx]
-                    if colour is None:
-                        transparent = (len(entry) == 4 and entry[3] == 0) or (len(entry) == 3 and tidx == idx) or (grey and tidx == idx)
-                        if not transparent:
-                            probs.append(f'type {t}: transparent requested, palette[{idx}] = {entry}, tRNS index {tidx}')
-                        others = [i for i, c in enumerate(pal) if i != idx and tuple(c[:3]) == tuple(entry[:3]) and len(c) == len(entry)]
-                        if others:
-                            probs.append(f'type {t}: transparent entry {entry} equals another palette colour')
-                    else:
-                        want = e['png_color'](colour)
-                        if tuple(entry) != tuple(want) and not (grey and tuple(entry[:3]) == tuple(want[:3])):
-                            probs.append(f'type {t}: colour {colour!r} painted with palette[{idx}] = {entry}, expected {want}')
-                        if not grey and len(want) == 4 and (len(pal[0]) < 4):
-                            probs.append(f'type {t}: alpha of {want} lost (first palette entry {pal[0]} decides the tRNS form)')
-                if len(pal) > 2 ** e['png_bit_depth']:
-                    probs.append(f'{len(pal)} colours in bit depth {e["png_bit_depth"]}')
-                yield ob(key, not probs, fn, got='; '.join(probs[:3]) or 'consistent', want='consistent')
